@@ -300,6 +300,8 @@ class Models:
             s_bad.pc.append(z3.Not(r.data[0]))
             if s_bad.feasible() and m.group(1) not in ("unwrap", "expect"):
                 out.append((s_bad, Opaque("vec", "substitute-for-error")))
+            elif m.group(1) in ("unwrap", "expect") and getattr(eng, "track_panics", False) and s_bad.feasible():
+                eng.panics.append((list(s_bad.pc), f"Result::{m.group(1)} on an Err", "?"))
             st.pc.append(r.data[0])
             out.append((st, r.data[1]))
             return out
